@@ -23,12 +23,14 @@ def multi(tier, props_doc=True):
     if tier == "quick":
         return [E("list_edge3", "list", 3), E("list_edgeb", "list", 2), E("list_edge", "list", 2, rate=0.25),
                 E("map_edge", "map", 2), E("map_edge3", "map", 3), E("counter_edge", "counter", 2, rate=0.5),
-                S("list_sim", "list", 3, 60, 40), S("map_sim", "map", 3, 60, 40), S("counter_sim", "counter", 4, 40, 40)]
+                S("list_sim", "list", 3, 60, 40), S("map_sim", "map", 3, 60, 40), S("counter_sim", "counter", 4, 40, 40),
+                E("doc_edge", "doc", 2, rate=0.5), E("doc_edgeo", "doc", 2, rate=0.5), S("doc_sim", "doc", 3, 60, 40)]
     return [M("list_mc", "list"), M("list_mc3", "list"), M("map_mc", "map"), M("map_mc3", "map"), M("counter_mc", "counter"),
             E("list_edge3", "list", 3), E("list_edgeb", "list", 2), E("list_edge", "list", 2),
             E("map_edge", "map", 2), E("map_edge3", "map", 3), E("counter_edge", "counter", 2),
             S("list_sim", "list", 3, 600, 50), S("list_sim4", "list", 4, 300, 60), S("map_sim", "map", 3, 600, 50),
-            S("map_sim4", "map", 4, 300, 60), S("counter_sim", "counter", 4, 300, 50)]
+            S("map_sim4", "map", 4, 300, 60), S("counter_sim", "counter", 4, 300, 50),
+            M("doc_mc", "doc"), E("doc_edge", "doc", 2), E("doc_edgeo", "doc", 2), S("doc_sim", "doc", 3, 600, 50)]
 
 
 def jobs(prop, tier):
@@ -43,23 +45,28 @@ def jobs(prop, tier):
     if prop == "C03":
         if q:
             return [E("list_one_edge", "list", 1), E("map_one_edge", "map", 1), E("counter_one_edge", "counter", 1),
-                    S("list_one_sim", "list", 1, 40, 45), S("map_one_sim", "map", 1, 40, 45), S("counter_one_sim", "counter", 1, 20, 35)]
+                    S("list_one_sim", "list", 1, 40, 45), S("map_one_sim", "map", 1, 40, 45), S("counter_one_sim", "counter", 1, 20, 35),
+                    E("doc_one_edge", "doc", 1, rate=0.5), S("doc_one_sim", "doc", 1, 40, 25)]
         return [M("list_one_mc", "list"), M("map_one_mc", "map"), E("list_one_edge", "list", 1), E("map_one_edge", "map", 1),
                 E("counter_one_edge", "counter", 1), S("list_one_sim", "list", 1, 500, 45), S("map_one_sim", "map", 1, 500, 45),
-                S("counter_one_sim", "counter", 1, 200, 35)]
+                S("counter_one_sim", "counter", 1, 200, 35), E("doc_one_edge", "doc", 1), S("doc_one_sim", "doc", 1, 500, 25)]
     if prop == "C09":
         if q:
             return [E("list_tx_edge", "list", 2, rate=0.3), E("list_txb_edge", "list", 2, rate=0.12), E("map_tx_edge", "map", 2, rate=0.3),
-                    E("counter_tx_edge", "counter", 2, rate=0.3), S("list_tx_sim", "list", 3, 60, 40), S("map_tx_sim", "map", 3, 60, 40), S("counter_tx_sim", "counter", 3, 30, 40)]
+                    E("counter_tx_edge", "counter", 2, rate=0.3), S("list_tx_sim", "list", 3, 60, 40), S("map_tx_sim", "map", 3, 60, 40), S("counter_tx_sim", "counter", 3, 30, 40),
+                    E("doc_tx_edge", "doc", 2, rate=0.3), S("doc_tx_sim", "doc", 3, 40, 40)]
         return [M("list_tx_mc", "list"), E("list_tx_edge", "list", 2), E("list_txb_edge", "list", 2), E("map_tx_edge", "map", 2),
                 E("map_txb_edge", "map", 2), E("counter_tx_edge", "counter", 2), S("list_tx_sim", "list", 3, 500, 50),
-                S("map_tx_sim", "map", 3, 500, 50), S("counter_tx_sim", "counter", 3, 300, 50)]
+                S("map_tx_sim", "map", 3, 500, 50), S("counter_tx_sim", "counter", 3, 300, 50),
+                E("doc_tx_edge", "doc", 2), S("doc_tx_sim", "doc", 3, 500, 50)]
     if prop == "C10":
         if q:
             return [E("list_res_edge", "list", 2, rate=0.4), E("map_res_edge", "map", 2), E("counter_res_edge", "counter", 2, rate=0.3),
-                    S("list_res_sim", "list", 3, 60, 40), S("map_res_sim", "map", 3, 60, 40), S("counter_res_sim", "counter", 3, 30, 40)]
+                    S("list_res_sim", "list", 3, 60, 40), S("map_res_sim", "map", 3, 60, 40), S("counter_res_sim", "counter", 3, 30, 40),
+                    E("doc_res_edge", "doc", 2, rate=0.3), S("doc_res_sim", "doc", 3, 40, 40)]
         return [E("list_res_edge", "list", 2), E("map_res_edge", "map", 2), E("counter_res_edge", "counter", 2),
-                S("list_res_sim", "list", 3, 500, 50), S("map_res_sim", "map", 3, 500, 50), S("counter_res_sim", "counter", 3, 300, 50)]
+                S("list_res_sim", "list", 3, 500, 50), S("map_res_sim", "map", 3, 500, 50), S("counter_res_sim", "counter", 3, 300, 50),
+                E("doc_res_edge", "doc", 2), S("doc_res_sim", "doc", 3, 500, 50)]
     return []
 
 
